@@ -89,6 +89,44 @@ DED = {
          "_p2weight is proved monotone in its first argument.",
          "forming D, _fillAF_dtw (links, nb_links, score), symmetry under swapping the tracks and _fdtw (best-first search) are bounded only."),
 }
+DED.update({
+ "C06": ("Network.run_routing_forward: the Dijkstra loop as a REGION contract (cut from the real function on every run) over an abstract "
+         "priority queue: labels are -1 or >= 0 and the source's is 0; every arc out of a settled node is relaxed (far end reached, label <= "
+         "label(u) + weight); the queue holds exactly the reached unsettled nodes with their labels; settled labels never exceed queued "
+         "priorities nor the node in hand; every reached node has a settled antecedent joined by the recorded edge in the direction of "
+         "travel with label = label(antecedent) + weight; exit cases (queue empty / stopped at a least node because of the cut or the "
+         "target). Lemma walk-lower-bound (induction over an arbitrary permitted walk): the label of the node in hand and of every settled "
+         "node is at most the weight of every walk reaching it.",
+         "priority_dict (heapq) is TRUSTED as an abstract priority queue; input normalisation, __resetFlags, queue initialisation, "
+         "shortest_distance / all_shortest_distances wrappers and the cut-off table are bounded only; Dijkstra mode only (no A*)."),
+ "C08": ("isSegmentIntersects (exact sign test), SpatialIndex.__getCell, groundDistanceToUnits (the units cover the distance along BOTH "
+         "axes), __neighboringcells, __cellsCrossSegment (for an arbitrary point of the segment the cell containing it is returned: "
+         "nested-loop invariant + real-arithmetic completeness, upper border included), __addSegment (inventory invariant, cells only "
+         "grow), addFeature (every point of every segment of the track has the feature registered in its cell; the affine map to grid "
+         "units commutes with interpolation), request (cell / point), neighborhood (cell / point, unit given): every datum of every cell "
+         "within `unit` cells is returned; lemma ground-distance-to-cells: a point within ground distance d falls within u cells when u "
+         "cells cover d along both axes.",
+         "index construction from a collection / network, request and neighborhood on segments and tracks, the unit = -1 incremental "
+         "search: bounded only."),
+ "C14": ("GeoCoords.toECEFCoords equals the closed-form WGS84 formulas (prime-vertical radius, e^2 = f(2 - f)); ECEFCoords.toENUCoords and "
+         "ENUCoords.toECEFCoords are the stated rotations; three proof harnesses sequencing the REAL methods show ENU -> ECEF -> ENU and ECEF "
+         "-> ENU -> ECEF are the identity for any base and that the base maps to (0, 0, 0) (sin^2 + cos^2 = 1; both directions take their "
+         "angles from the same deterministic base.toGeoCoords()).",
+         "the geodetic inverse (Bowring) and the Lambert-93 inverse are numerical approximations: accuracy to 1e-9 degree / 1 mm is bounded only, "
+         "as are whole-track conversions and the recorded base."),
+ "C15": ("Filter.execute (REGION from `N = len(kernel)` on): every output is NUM / NRM with NUM, NRM the sums of x*w and w over the window "
+         "samples inside the track and not NaN; for an arbitrary window index and bounds lo <= x <= hi the output lies in [lo, hi] (hence "
+         "constants are preserved); boundary values copied when boundaries are not filtered; result stored, other columns unchanged. "
+         "Kernel.toSlidingWindow: odd length 2 int(support) + 1, non-negative, symmetric, sums to 1 (lemma sum-of-scaled-window) for an "
+         "abstract kernel function that is even, non-negative on the support and positive at 0 - properties proved for the lambdas of the "
+         "seven built-in non-negative kernels extracted from the source.",
+         "kernel preparation in Filter.execute (list normalisation, Kernel objects), Kernel.evaluate (numpy.vectorize: trusted), "
+         "filter_seq wiring, Filter_FFT: bounded only or outside the statement."),
+ "C16": ("distance_to_segment: never fails (degenerate chord included); the result is the distance from the point to a point of the segment "
+         "(the per-coordinate clamp equals clamping the parameter), 0 at both ends of the chord.",
+         "douglas_peucker (recursion, subsequence, tolerance) and visvalingam: bounded only."),
+})
+
 for i, b, n in [
     ("C01", "all histories of feature operations to a depth bound over a colliding name alphabet, random longer ones; run-time contract = abstract name->column map", ""),
     ("C02", "all expression trees to depth 3 over a small alphabet, random to depth 6, vectors with 0, negatives, ties, NaN; oracle = ordinary arithmetic under the documented operator table", ""),
